@@ -34,6 +34,13 @@ Theorem C28_all_signed_partial : forall c g ops,
 Proof. exact all_signed_partial. Qed.
 Print Assumptions C28_all_signed_partial.
 
+Theorem C28_chain_clean_partial : forall c g ops,
+  cfg_ok c -> gen_ok g -> hash_ok (ops_txs ops) ->
+  self_signed ops = true -> pool_guard ops = true ->
+  spec_chain c (chain (run c (init g) ops)) = true.
+Proof. exact chain_clean_partial. Qed.
+Print Assumptions C28_chain_clean_partial.
+
 Theorem C28_fix_all_signed : forall c g ops,
   gen_ok g -> self_signed ops = true -> pool_verified ops = true ->
   spec_signed (chain (run_fix c (init g) ops)) = true.
